@@ -53,9 +53,29 @@ def rule_MK3(ctx, rep):
         # non-receiver path returns the Nones it got without touching opened values
         rets = [r for r in iter_nodes(fn.node) if isinstance(r, ast.Return)]
         pm = parents(fn.node)
-        early = [r for r in rets if any('is None' in norm(i.test) and br == 'body' for i, br in enclosing_ifs(r, pm, stop=fn.node))]
+        from . import cond
+        # a return reachable exactly by the parties that received None placeholders: either guarded by `<x> is None`, or an
+        # unconditional final return while all processing of the opened values is guarded by `<x> is not None`
+        def none_atoms(f):
+            return {a for a in cond.atoms_of(f) if a.startswith('None is ') or a.endswith(' is None')}
+        early = [r for r in rets if any(cond.satisfiable(cond.conj([cond.context(fn, r, pm), cond.atom(a)])) and
+                                        not cond.satisfiable(cond.conj([cond.context(fn, r, pm), cond.neg(cond.atom(a))]))
+                                        for a in none_atoms(cond.context(fn, r, pm)))]
+        guarded_tail = False
+        last_out = max(outs, key=lambda c_: astq.position(c_))
+        if not early and rets:
+            final = max(rets, key=lambda r_: astq.position(r_))
+            post = [s_ for s_ in iter_nodes(fn.node) if isinstance(s_, ast.stmt) and astq.position(s_) > astq.position(astq.enclosing_stmt(last_out, pm))
+                    and s_ is not final and not isinstance(s_, ast.If)]
+            ats = set()
+            for s_ in post:
+                ats |= none_atoms(cond.context(fn, s_, pm))
+            guarded_tail = bool(post) and bool(ats) and cond.context(fn, final, pm) in (cond.TRUE,) and all(
+                any(not cond.satisfiable(cond.conj([cond.context(fn, s_, pm), cond.atom(a)])) for a in ats) for s_ in post)
         if early:
             rep.ok('MK3', fn, early[0], 'non-receivers return the None placeholders')
+        elif guarded_tail:
+            rep.ok('MK3', fn, rets[-1], 'the opened values are processed only when they are not None; non-receivers return the None placeholders')
         else:
             rep.bad('MK3', fn, fn.qualname, 'no early return for parties that received None: non-receivers crash or fabricate a value', fn.node)
     # delegation in Runtime.output
